@@ -40,12 +40,14 @@ func agxParse(name string) agxCfg {
 	return c
 }
 
-func c48SelfTest(t *testing.T) {
+func c48SelfTest(t *testing.T, r *vx.Run) {
 	x := newAgx(agxParse("base@medium"))
 	defer x.Close()
 	for _, op := range []string{"a/s1/F+1/f", "ax/s2/F+1", "c", "a/s1/F+1/h", "r", "T/F", "re"} {
 		if f := x.Apply(op, true); f != nil {
-			t.Fatalf("self-test: unexpected failure on %s: %s: %s", op, f.Signature, f.Message)
+			// the real code misbehaves on the self-test history: that is a verdict, not a tool failure
+			r.Violation(f.Signature, "self-test history: "+f.Message, map[string]any{"config": "base@medium", "ops": append([]string{}, x.hist...)})
+			return
 		}
 	}
 	if len(x.m.committed) != 3 {
@@ -88,14 +90,14 @@ func TestVerifC48(t *testing.T) {
 		}
 		return
 	}
-	c48SelfTest(t)
+	c48SelfTest(t, r)
 	type plan struct {
 		name  string
 		depth int
 	}
 	var plans []plan
 	if r.Quick() {
-		plans = []plan{{"base@small", 5}, {"ooo@small", 4}, {"base@medium", 3}, {"v2@medium", 2}, {"st@medium", 2}, {"base@small+dup", 3}, {"base@small+cp", 3}}
+		plans = []plan{{"base@small", 4}, {"ooo@small", 4}, {"base@medium", 3}, {"v2@medium", 2}, {"st@medium", 2}, {"base@small+dup", 4}, {"base@small+cp", 3}}
 	} else {
 		plans = []plan{
 			{"base@small", 6}, {"ooo@small", 5}, {"v2@small", 4}, {"st@small", 4},
